@@ -1,6 +1,7 @@
 """C11 - the native engine is memory-safe (site-exhaustive, idiom-based audit; not a proof)."""
 from __future__ import annotations
 
+import re
 from typing import Any, Dict, List, Optional, Set, Tuple
 
 from .. import linexpr as lx
@@ -1257,6 +1258,97 @@ def _var_from_failing(cu: CUnit, g: Graph, at: int, var: str, failing: Set[str])
     return False
 
 
+def rule_retcode(rep: Report, cu: CUnit) -> None:
+    rep.rule('C11.RETCODE', 'the unit-local helpers that report failure by returning -1 (and success by a non-negative literal) are tested '
+             'exactly: wherever a call of one is compared in a condition, the comparison is true for -1 and false for every success value '
+             'the helper can return (or the reverse) - `helper(..) <= 0` would take a successful 0 for a failure. Also the CPython '
+             'conversion idiom: the result of PyLong_AsUnsignedLongLong / ..AsLongLong / ..AsSsize_t is an error only together with '
+             'PyErr_Occurred()', 12)
+    # return sets
+    rets: Dict[str, Set[int]] = {}
+    for name in cu.funcs:
+        fn_ = cu.func(name)
+        if 'int' not in str(fn_.get('type', {}).get('qualType', '')).split('(')[0]:
+            continue
+        vals: Set[int] = set()
+        ok = True
+        for r in walk(cu.body(name)):
+            if r.get('kind') == 'ReturnStmt' and r.get('inner'):
+                v = strip(r['inner'][0])
+                iv = int_value(v)
+                if iv is None and v.get('kind') == 'UnaryOperator' and v.get('opcode') == '-' and int_value(strip(v['inner'][0])) is not None:
+                    iv = -int_value(strip(v['inner'][0]))
+                if iv is None:
+                    ok = False
+                else:
+                    vals.add(iv)
+        if ok and -1 in vals and any(x >= 0 for x in vals) and all(x >= -1 for x in vals):
+            rets[name] = vals
+    n = 0
+    for name in cu.funcs:
+        for node in walk(cu.body(name)):
+            if node.get('kind') != 'BinaryOperator' or node.get('opcode') not in ('<', '<=', '>', '>=', '==', '!='):
+                continue
+            a, b = strip(node['inner'][0]), strip(node['inner'][1])
+            for call, other, side in ((a, b, 0), (b, a, 1)):
+                if call.get('kind') == 'CallExpr' and callee(call) in rets:
+                    k = int_value(other)
+                    if k is None and other.get('kind') == 'UnaryOperator' and other.get('opcode') == '-' and int_value(strip(other['inner'][0])) is not None:
+                        k = -int_value(strip(other['inner'][0]))
+                    if k is None:
+                        continue
+                    n += 1
+                    op = node['opcode']
+                    def holds(r: int) -> bool:
+                        x, y = (r, k) if side == 0 else (k, r)
+                        return {'<': x < y, '<=': x <= y, '>': x > y, '>=': x >= y, '==': x == y, '!=': x != y}[op]
+                    on_fail = holds(-1)
+                    succ = {holds(v) for v in rets[callee(call)] if v >= 0}
+                    rep.check(succ == {not on_fail}, 'C11.RETCODE', f'{name}:{cu.src_of(node)[:60]}',
+                              f'{callee(call)} returns {sorted(rets[callee(call)])}; the test is {on_fail} for -1 and {sorted(succ)} for the success values',
+                              cu.site(node, name), expected='-1 on one side of the test, every success value on the other')
+    # truthiness tests `if (helper(..))` / `if (!helper(..))` of such a helper mix -1 with the non-zero successes: only sound when 0 is the ONLY success
+    for name in cu.funcs:
+        for node in walk(cu.body(name)):
+            if node.get('kind') == 'IfStmt' and node.get('inner'):
+                c = strip(node['inner'][0])
+                if c.get('kind') == 'UnaryOperator' and c.get('opcode') == '!':
+                    c = strip(c['inner'][0])
+                if c.get('kind') == 'CallExpr' and callee(c) in rets:
+                    n += 1
+                    rep.check({v for v in rets[callee(c)] if v >= 0} == {0}, 'C11.RETCODE', f'{name}:truthiness of {callee(c)}(..)',
+                              f'{callee(c)} returns {sorted(rets[callee(c)])}', cu.site(node, name), expected='a truthiness test only when 0 is the one success value')
+    # CPython integer conversions
+    for name in cu.funcs:
+        fn = None
+        for c in walk(cu.body(name)):
+            if c.get('kind') == 'CallExpr' and callee(c) in ('PyLong_AsUnsignedLongLong', 'PyLong_AsLongLong', 'PyLong_AsSsize_t', 'PyLong_AsUnsignedLongLongMask', 'PyLong_AsLong'):
+                par = cu.parent(c)
+                while isinstance(par, dict) and par.get('kind') in ('ImplicitCastExpr', 'CStyleCastExpr', 'ParenExpr'):
+                    par = cu.parent(par)
+                tgt = None
+                if isinstance(par, dict) and is_assign(par):
+                    tgt = cu.src_of(par['inner'][0])
+                elif isinstance(par, dict) and par.get('kind') == 'VarDecl':
+                    tgt = par.get('name')
+                if tgt is None:
+                    continue
+                n += 1
+                # some condition of the function tests `tgt == -1 && PyErr_Occurred()` (either order, the -1 possibly cast)
+                found = False
+                for t in walk(cu.body(name)):
+                    if t.get('kind') == 'BinaryOperator' and t.get('opcode') == '&&':
+                        parts = [cu.src_of(x).replace(' ', '') for x in t['inner']]
+                        has_err = any(p_.startswith('PyErr_Occurred(') for p_ in parts)
+                        has_cmp = any(re.fullmatch(re.escape(tgt) + r'==(\([\w ]+\))?-1', p_.replace('unsignedlonglong', 'unsigned long long').replace(' ', '')) or
+                                      re.fullmatch(r'(\([\w ]+\))?-1==' + re.escape(tgt), p_) for p_ in parts)
+                        found = found or (has_err and has_cmp)
+                rep.check(found, 'C11.RETCODE', f'{name}:{callee(c)} -> {tgt}', 'error test `== -1 && PyErr_Occurred()`' if found else
+                          'the conversion result is not tested as `== -1 && PyErr_Occurred()`: a legitimate all-ones value is taken for an error, or an error for a value',
+                          cu.site(c, name))
+    rep.units['retcode'] = dict(helpers={k: sorted(v) for k, v in rets.items()}, tests=n)
+
+
 def check(rep: Report, repo: Optional[Repo] = None) -> None:
     from ..spec.machine import ROLES_C as M_ROLES_C
     repo = repo or Repo()
@@ -1272,6 +1364,7 @@ def check(rep: Report, repo: Optional[Repo] = None) -> None:
     rule_shift(rep, cu)
     rule_ownership(rep, cu)
     rule_errors(rep, cu)
+    rule_retcode(rep, cu)
     from .c01 import rule_addr_wrap
     rule_addr_wrap(rep, cu)
     rep.not_decided.append('a proof of memory safety (no sound whole-program C verifier in this sandbox); the audit is '
